@@ -57,6 +57,7 @@ int main()
         if (line.empty())
             continue;
         auto f = vh::fields(line);
+        vh::case_alarm(300); // per-case watchdog: a hang becomes the observation abort:timeout for this case
         std::cout << vs::guarded([&] { return run_case(f); }) << std::endl;
     }
     return 0;
